@@ -326,7 +326,8 @@ class Rig:
                 else:
                     self.loop.call_soon(self._do_event, tev)
         try:
-            pkt = await self.protocol.send_cmd(cmd, priority=Priority(c.get("priority", 0)), qos=qos)
+            rep = {"num_repeats": c["num_repeats"]} if c.get("num_repeats") else {}
+            pkt = await self.protocol.send_cmd(cmd, priority=Priority(c.get("priority", 0)), qos=qos, **rep)
         except asyncio.CancelledError:
             self.log("return", caller=n, cancelled=True)
             raise
@@ -530,6 +531,15 @@ def oracle_c08(ep: dict[str, Any], h: dict[str, Any]) -> list[tuple[str, str, An
         call = next((e for e in evs if e["ev"] == "call" and e["caller"] == n), None)
         ret = next((e for e in evs if e["ev"] == "return" and e["caller"] == n), None)
         limit = 1 + min(c.get("max_retries", 3), 3)
+        reps = max(1, c.get("num_repeats", 0))
+        if reps > 1:
+            # each attempt of this command goes out `num_repeats` times, 20 ms apart (and the repeats of an attempt are
+            # sent even once the echo is in): only the total is judged for it
+            if len(mine) > limit * reps:
+                out.append(("C08|ledger|too-many-transmissions", "a command was transmitted more than (1 + min(max_retries, 3)) x num_repeats times", {"caller": n, "transmissions": len(mine), "limit": limit * reps}))
+            continue
+        if any(b["vt"] - a["vt"] < 0.25 for a, b in zip(mine, mine[1:])):
+            out.append(("C08|ledger|repeats-not-asked-for", "a command sent without repeats was written again within a fraction of its echo wait (another caller's repeat count was applied to it)", {"caller": n, "writes_vt": [w["vt"] for w in mine][:8]}))
         if len(mine) > limit:
             out.append(("C08|ledger|too-many-transmissions", "a command was transmitted more than 1 + min(max_retries, 3) times", {"caller": n, "transmissions": len(mine), "limit": limit}))
         # (2) nothing after the caller has its answer
@@ -764,6 +774,16 @@ def gen_multi(rng, max_callers: int = 4) -> dict[str, Any]:
     return {"disable_qos": rng.choice((None, False, False, True)), "callers": callers, "quiet": 30.0}
 
 
+def add_repeats(rng, ep: dict[str, Any]) -> dict[str, Any]:
+    """Some callers ask for their frame to be repeated (as the library's own binding / faked-device sends do)."""
+    if len(ep["callers"]) > 1 and rng.random() < 0.25:
+        frames = [caller_frames(c)["frame"] for c in ep["callers"]]
+        single = [c for c, f in zip(ep["callers"], frames) if frames.count(f) == 1]  # (writes of twins cannot be told apart)
+        for c in rng.sample(single, min(len(single), rng.choice((1, 1, 2)))):
+            c["num_repeats"] = rng.choice((2, 3))
+    return ep
+
+
 def gen_faulty(rng) -> dict[str, Any]:
     """Multi-caller episode with transport events: disconnects in every state, write failures, pauses."""
     ep = gen_multi(rng, 3)
@@ -882,7 +902,7 @@ def drive(ctx, oracle, pid: str, budget: dict[str, int]) -> None:
         if kind == "single":
             ep = gen_single(rng, arg * 7919 % 10_000_019 if arg > 30000 else arg)
         elif kind == "multi":
-            ep = gen_multi(rng)
+            ep = add_repeats(rng, gen_multi(rng))
         elif kind == "faulty":
             ep = gen_faulty(rng)
         else:
